@@ -1116,6 +1116,11 @@ package websocket
 //@ assert at return#$[C16.open]: !nc.g_closed && !conn.conn.g_wdl && !conn.conn.g_rdl
 //@ loop 2 invariant len(req.Header["Sec-WebSocket-Key"]) == 1 && req.Header["Sec-WebSocket-Key"][0] == ck
 //@ loop 2 invariant len(req.Header["Upgrade"]) == 1 && streq(req.Header["Upgrade"][0], "websocket") && len(req.Header["Connection"]) == 1 && streq(req.Header["Connection"][0], "Upgrade")
+//@ loop 2 invariant[C14.protoowned] !haskey(req.Header, "Sec-Websocket-Protocol") && !haskey(req.Header, "sec-websocket-protocol")
+//@ assert at call:Write#1[C14.protoowned]: !haskey(req.Header, "Sec-Websocket-Protocol") && !haskey(req.Header, "sec-websocket-protocol")
+//@ loop 2 invariant[C14.extowned] !haskey(req.Header, "Sec-WebSocket-Extensions") && !haskey(req.Header, "Sec-Websocket-Extensions") && !haskey(req.Header, "sec-websocket-extensions")
+//@ assert at call:Write#1[C14.extowned]: imp(!d.EnableCompression, !haskey(req.Header, "Sec-WebSocket-Extensions") && !haskey(req.Header, "Sec-Websocket-Extensions") && !haskey(req.Header, "sec-websocket-extensions"))
+//@ assert at call:Write#1[C14.extowned]: imp(d.EnableCompression, len(req.Header["Sec-WebSocket-Extensions"]) == 1 && !haskey(req.Header, "Sec-Websocket-Extensions") && !haskey(req.Header, "sec-websocket-extensions"))
 //@ loop 2 invariant len(req.Header["Sec-WebSocket-Version"]) == 1 && streq(req.Header["Sec-WebSocket-Version"][0], "13") && streq(req.Method, "GET") && req.URL == u && req.Header != nil
 
 // ---------------------------------------------------------------------------
@@ -1490,3 +1495,74 @@ package websocket
 //@ tags C18
 //@ nilable tlsConfig
 //@ ensures[C18.tlswrap] isClosure(result, "netDialWithTLSHandshake$1") && same(closvar(result, "netDialWithTLSHandshake$1", netDial), netDial) && closvar(result, "netDialWithTLSHandshake$1", tlsConfig) == tlsConfig && closvar(result, "netDialWithTLSHandshake$1", u) == u
+
+// ---------------------------------------------------------------------------
+// small pure helpers and thin wrappers
+//@ func isControl
+//@ tags C02 C04 C10
+//@ pure
+//@ ensures[C10.kind] iff(result, frameType == 8 || frameType == 9 || frameType == 10)
+
+//@ func isData
+//@ tags C02 C04 C10
+//@ pure
+//@ ensures[C10.kind] iff(result, frameType == 1 || frameType == 2)
+
+//@ func IsCloseError
+//@ tags C08
+//@ pure
+//@ loop 1 invariant forall(k, 0, rangeindex+1, codes[k] != asType(err, "*CloseError").Code)
+//@ ensures[C08.iscloseerr] imp(!typeIs(err, "*CloseError"), !result)
+//@ ensures[C08.iscloseerr] imp(forall(k, 0, len(codes), codes[k] != asType(err, "*CloseError").Code), !result)
+
+//@ func IsUnexpectedCloseError
+//@ tags C08
+//@ pure
+//@ loop 1 invariant forall(k, 0, rangeindex+1, expectedCodes[k] != asType(err, "*CloseError").Code)
+//@ ensures[C08.iscloseerr] imp(!typeIs(err, "*CloseError"), !result)
+//@ ensures[C08.iscloseerr] imp(typeIs(err, "*CloseError") && result, forall(k, 0, len(expectedCodes), expectedCodes[k] != asType(err, "*CloseError").Code))
+//@ ensures[C08.iscloseerr] imp(err != nil && typeIs(err, "*CloseError"), imp(forall(k, 0, len(expectedCodes), expectedCodes[k] != asType(err, "*CloseError").Code), result))
+
+//@ func (*messageReader).Close
+//@ tags C03
+//@ pure
+//@ ensures[C03.readerclose] result == nil
+
+//@ func JoinMessages
+//@ tags C03 C05
+//@ ensures[C03.join] typeIs(result, "*joinReader") && asType(result, "*joinReader").c == c && same(asType(result, "*joinReader").term, term) && asType(result, "*joinReader").r == nil
+
+//@ func ReadJSON
+//@ tags C03 C05
+//@ requires RState(c)
+//@ bind e after call:ReadJSON#1
+//@ assert at call:ReadJSON#1[C03.json]: arg0 == c && arg1 == v
+//@ assert at return#1[C05.json]: result == e
+
+//@ func (*flateWriteWrapper).Write
+//@ tags C02 C10
+//@ results n err
+//@ bind fn,ferr after call:Write#1
+//@ assert at call:Write#1[C02.deflate]: arg0 == w.fw && same(arg1, p)
+//@ assert at return#1[C10.writeclosed]: w.fw == nil && n == 0 && err != nil
+//@ assert at return#2[C02.deflate]: old(w.fw) != nil && n == fn && err == ferr
+
+// deprecated entry points: plain delegation
+//@ func Upgrade
+//@ tags C12
+//@ requires readBufSize <= 1099511627776 && writeBufSize <= 1099511627776
+//@ results conn err
+//@ bind uc,uerr after call:Upgrade#1
+//@ assert at call:Upgrade#1[C12.deprecated]: arg1 == w && arg2 == r && same(arg3, responseHeader) && arg0.ReadBufferSize == readBufSize && arg0.WriteBufferSize == writeBufSize && arg0.Subprotocols == nil && !arg0.EnableCompression
+//@ assert at return#1[C12.deprecated]: conn == uc && err == uerr
+
+//@ func NewClient
+//@ tags C14
+//@ requires readBufSize <= 1099511627776 && writeBufSize <= 1099511627776
+//@ bind dc,dresp,derr after call:Dial#1
+//@ assert at call:Dial#1[C14.newclient]: same(arg2, requestHeader) && arg0.ReadBufferSize == readBufSize && arg0.WriteBufferSize == writeBufSize && arg0.Proxy == nil && !arg0.EnableCompression
+//@ assert at return#1[C14.newclient]: c == dc && response == dresp && err == derr
+
+//@ func NewClient$1
+//@ tags C14
+//@ assert at return#1[C14.newclient]: r0 == netConn && r1 == nil
